@@ -79,7 +79,7 @@ func (d *DBFT[H]) addTransaction(tx Transaction[H]) {
 func (d *DBFT[H]) Start(ts uint64) {
 	d.cache = newCache[H]()
 	d.initializeConsensus(0, ts)
-	if d.IsPrimary() {
+	if d.IsPrimary() && !d.Context.WatchOnly() {
 		d.sendPrepareRequest(true)
 	}
 }
